@@ -137,6 +137,13 @@ impl<'a, S: Clone + Bits> Annot<'a, S> {
         }
     }
 
+    /// Switches the geometry (space / world) the following calls are measured with: used when a
+    /// run re-installs a problem on a different space. Lengths are re-expressed in the new unit.
+    pub fn set_geom(&mut self, g: &'a dyn Geom<S>) {
+        self.g = g;
+        self.unit = g.unit();
+    }
+
     pub fn reset(&mut self, run: usize, desc: Value) {
         let lvs = self.g.lvs();
         let ev = json!({
@@ -418,8 +425,9 @@ impl<'a, S: Clone + Bits> Annot<'a, S> {
         let (k, site, msg) = Self::outcome_kind(&rec.outcome);
         let snap = self.snapshot_json(&rec.snap);
         let meqv = if !draws_seen || self.mirror.is_none() { 2 } else if meq { 1 } else { 0 };
+        let (hl, hm, hr) = (self.u(self.g.lvs()), self.u(self.params.maxd), self.u(self.params.radius));
         self.out.push(json!({"ev": "setup", "pd": i + 1, "kind": k, "site": site, "msg": msg, "roots": roots,
-                             "meq": meqv, "snap": snap}));
+                             "meq": meqv, "snap": snap, "lvs": hl, "maxd": hm, "rad": hr}));
     }
 
     fn tree_solve(&mut self, rec: &CallRec<S>, t: u64, problems: &[ProblemInfo<S>]) {
